@@ -82,11 +82,11 @@ func (e Expectation) AssertValidity(notBefore, notAfter time.Time) error {
 	nbf := notBefore.Unix()
 	exp := notAfter.Unix()
 
-	if nbf > 0 && now+leeway < nbf {
+	if !notBefore.IsZero() && now+leeway < nbf {
 		return errorchain.NewWithMessage(ErrAssertion, "not yet valid")
 	}
 
-	if exp > 0 && now-leeway >= exp {
+	if !notAfter.IsZero() && now-leeway >= exp {
 		return errorchain.NewWithMessage(ErrAssertion, "expired")
 	}
 
